@@ -73,6 +73,18 @@ def ident(i, t):
     return "//%s:t%d" % (t.pkg, i)
 
 
+def spelled(i, pos, d, tasks):
+    """a dependency can be written in several ways that denote the same task: //pkg:t, //pkg/:t and,
+    inside the same COND file, :t -- vary them deterministically"""
+    t, td = tasks[i], tasks[d]
+    choice = (i * 7 + d * 3 + pos) % 3
+    if choice == 1 and t.pkg == td.pkg and td.status != 0:
+        return ":t%d" % d
+    if choice == 2 and td.pkg:
+        return "//%s/:t%d" % (td.pkg, d)
+    return ident(d, td)
+
+
 # ----------------------------------------------------------------------------- project on disk
 def write_project(case):
     root = os.path.join(new_dir("sched"), "p")
@@ -88,7 +100,7 @@ def write_project(case):
     for pkg, items in by_pkg.items():
         lines = []
         for i, t in items:
-            deps = ", ".join('"%s"' % ident(d, case.tasks[d]) for d in t.deps)
+            deps = ", ".join('"%s"' % spelled(i, pos, d, case.tasks) for pos, d in enumerate(t.deps))
             bad = ", args=[[1]]" if t.status == 1 and t.kind in ("command", "experiment") else ""
             if t.status == 1 and t.kind in ("combine", "group"):
                 deps = deps + (", " if deps else "") + '"not an identifier"'
@@ -127,7 +139,7 @@ class Deadlock(Exception):
 TRACED = ("/conductor/execution/", "/conductor/utils/sigchld.py", "/conductor/task_types/run.py")
 
 
-def run_with_injection(m, ctx, tid, case, obs, inject, inj_state, inflight, pid_task, kills, trace):
+def run_with_injection(m, ctx, tid, case, obs, inject, inj_state, inflight, pid_task, kills, trace, vanished):
     import signal as _signal
     from conductor.errors.signal import register_signal_handlers
 
@@ -139,9 +151,15 @@ def run_with_injection(m, ctx, tid, case, obs, inject, inj_state, inflight, pid_
     def local(frame, event, arg):  # pylint: disable=unused-argument
         if event == "line":
             inj_state["count"] += 1
+            if k is None:
+                inj_state.setdefault("funcs", []).append(frame.f_code.co_name)
             if k is not None and inj_state["count"] == k and inj_state["fired"] is None:
                 inj_state["fired"] = {"live": [pid_task[p] for p in inflight], "where": os.path.basename(frame.f_code.co_filename),
-                                      "line": frame.f_lineno, "func": frame.f_code.co_name}
+                                      "line": frame.f_lineno, "func": frame.f_code.co_name, "vanished": []}
+                if inject.get("vanish_first") and len(inflight) >= 2:
+                    # the first registered process has just exited and been reaped (its exit and the interrupt arrive together)
+                    vanished.add(inflight[0])
+                    inj_state["fired"]["vanished"] = [pid_task[inflight[0]]]
                 _signal.raise_signal(sig)
         return local
 
@@ -176,6 +194,7 @@ def run_with_injection(m, ctx, tid, case, obs, inject, inj_state, inflight, pid_
         m["sigchld"].SigchldHelper._Instance = None  # pylint: disable=protected-access
     obs.abort["fired"] = inj_state["fired"]
     obs.abort["events"] = inj_state["count"]
+    obs.abort["funcs"] = inj_state.get("funcs")
     obs.abort["kills"] = list(kills)
     obs.abort["finished_ok"] = [r[1] for r in trace if r[0] == "finish" and r[2] == 0]
     obs.plan = None
@@ -249,6 +268,9 @@ def run_impl(case, keep_root=False, inject=None):
     pid_task = {}
     waits = [0]
     next_pid = [500000]
+    write_ends = {}
+    kills = []
+    vanished = set()   # pids that have "exited and been reaped" although they are still registered
     rte, co, noop, operation, sigchld, errors = m["rte"], m["co"], m["noop"], m["operation"], m["sigchld"], m["errors"]
 
     class FakeProc:
@@ -260,8 +282,15 @@ def run_impl(case, keep_root=False, inject=None):
                 raise OSError(13, "injected launch failure")
             self.pid = next_pid[0]
             next_pid[0] += 1
-            self.stdout = io.BytesIO(b"") if kw.get("stdout") == -1 else None
-            self.stderr = io.BytesIO(b"") if kw.get("stderr") == -1 else None
+            # a teed stream is a real pipe whose write end stays open while the fake process "runs"
+            self.stdout = self.stderr = None
+            self._wfds = []
+            for attr in ("stdout", "stderr"):
+                if kw.get(attr) == -1:
+                    r, w = os.pipe()
+                    setattr(self, attr, os.fdopen(r, "rb"))
+                    self._wfds.append(w)
+            write_ends[self.pid] = self._wfds
             self.returncode = None
             slot = env.get("COND_SLOT")
             obs.spawns.append({"task": t, "slot": None if slot is None else int(slot), "cwd": str(kw.get("cwd")), "argv": list(args),
@@ -280,12 +309,29 @@ def run_impl(case, keep_root=False, inject=None):
         PIPE = -1
         Popen = FakeProc
 
+    def close_pipes(pid):
+        for w in write_ends.pop(pid, []):
+            try:
+                os.close(w)
+            except OSError:
+                pass
+
+    def fake_getpgid(pid):
+        if pid in vanished:
+            raise ProcessLookupError(3, "No such process")
+        return pid
+
+    def fake_killpg(pg, sig):  # pylint: disable=unused-argument
+        kills.append(pid_task.get(pg, -1))
+        close_pipes(pg)
+
     def fake_wait(self):  # pylint: disable=unused-argument
         if not inflight:
             raise Deadlock("SigchldHelper.wait() with no process in flight")
         k = (case.picks[waits[0]] if waits[0] < len(case.picks) else 0) % len(inflight)
         waits[0] += 1
         pid = inflight.pop(k)
+        close_pipes(pid)
         t = pid_task[pid]
         rc = case.rcs[t] if t < len(case.rcs) else 0
         trace.append(("finish", t, rc))
@@ -329,13 +375,21 @@ def run_impl(case, keep_root=False, inject=None):
 
         patch(cls, name, wrapper)
 
-    kills = []
     cwd0 = os.getcwd()
     out = io.StringIO()
     import signal as _signal
 
     inj_state = {"count": 0, "fired": None}
-    old_alarm = _signal.signal(_signal.SIGALRM, _on_alarm)
+    timed_out = [False]
+
+    def on_alarm(signum, frame):  # pylint: disable=unused-argument
+        # unblock whatever waits for a fake process (tee threads read real pipes), then give up on the case
+        timed_out[0] = True
+        for _pid in list(write_ends):
+            close_pipes(_pid)
+        raise Timeout("the implementation did not finish within %d s" % IMPL_TIMEOUT)
+
+    old_alarm = _signal.signal(_signal.SIGALRM, on_alarm)
     _signal.alarm(IMPL_TIMEOUT)
     try:
         patch(rte, "subprocess", Shim)
@@ -347,8 +401,8 @@ def run_impl(case, keep_root=False, inject=None):
         wrap_method(m["ttrun"].RunExperiment, "should_run", lambda self, *a, **k: sr_calls.append(task_of_ident(self.identifier)))
         wrap_method(m["ttrun"].RunExperiment, "create_new_version", lambda self, *a, **k: nv_calls.append(task_of_ident(self.identifier)))
         wrap_method(m["tindex"].TaskIndex, "load_single_task", lambda self, identifier: last_loading.__setitem__(0, task_of_ident(identifier)))
-        patch(m["executor"].os, "getpgid", lambda pid: pid)
-        patch(m["executor"].os, "killpg", lambda pg, sig: kills.append(pid_task.get(pg, -1)))
+        patch(m["executor"].os, "getpgid", fake_getpgid)
+        patch(m["executor"].os, "killpg", fake_killpg)
         with contextlib.redirect_stdout(out), contextlib.redirect_stderr(out):
             ctx = m["Context"](pathlib.Path(root))
             tid = m["TaskIdentifier"].from_str(ident(case.root, case.tasks[case.root]))
@@ -367,7 +421,7 @@ def run_impl(case, keep_root=False, inject=None):
             except errors.ConductorError as ex:
                 obs.load = ("bad", last_loading[0], type(ex).__name__)
             if obs.load[0] == "ok" and inject is not None:
-                run_with_injection(m, ctx, tid, case, obs, inject, inj_state, inflight, pid_task, kills, trace)
+                run_with_injection(m, ctx, tid, case, obs, inject, inj_state, inflight, pid_task, kills, trace, vanished)
             elif obs.load[0] == "ok":
                 plan = m["Planner"](ctx).create_plan_for(tid, run_again=case.again)
                 tk = lambda op: task_of_ident(op.main_task.identifier)  # noqa: E731
@@ -405,9 +459,13 @@ def run_impl(case, keep_root=False, inject=None):
     finally:
         _signal.alarm(0)
         _signal.signal(_signal.SIGALRM, old_alarm)
+        for _pid in list(write_ends):
+            close_pipes(_pid)
         for (o, name), val in orig.items():
             setattr(o, name, val)
         os.chdir(cwd0)
+    if timed_out[0] and obs.crash is None:
+        obs.crash = "Timeout: the implementation blocked for more than %d s (it was waiting for a task process that nothing was going to end)" % IMPL_TIMEOUT
     obs.stdout = out.getvalue()
     obs.sr_calls, obs.nv_calls = sr_calls, nv_calls
     obs.kills = kills
